@@ -76,6 +76,8 @@ def F2(m, R):
                             return all(vs) if isinstance(t.op, ast.And) else any(vs)
                         if isinstance(t, ast.UnaryOp) and isinstance(t.op, ast.Not):
                             return not tv(t.operand)
+                        if isinstance(t, ast.Name) and t.id in env:
+                            return bool(env[t.id])            # truthiness: None and 0 are false
                         return bool(int_eval(t, {k: v for k, v in env.items() if v is not None}))
                     r = run_int(st.body if tv(t) else st.orelse, env)
                     if r is not None:
@@ -602,14 +604,20 @@ def F4(m, R):
                     return 'notall' if neg else 'all'
                 return 'none' if neg else 'any'
             return None
-        if isinstance(t, ast.Compare) and const_val(t.left, None) is False and isinstance(t.comparators[0], ast.ListComp):
+        if isinstance(t, ast.Compare) and isinstance(const_val(t.left, None), bool) and isinstance(t.comparators[0], ast.ListComp):
             comp_ = t.comparators[0]
             g_ = comp_.generators[0]
             if norm(g_.iter) == searched and isinstance(comp_.elt, ast.Compare) and isinstance(comp_.elt.ops[0], ast.In) and norm(comp_.elt.left) == norm(g_.target) and not g_.ifs:
-                k = 'all' if isinstance(t.ops[0], ast.NotIn) else 'notall' if isinstance(t.ops[0], ast.In) else None
+                cont = canon(comp_.elt.comparators[0], local_aliases(f))
+                if cont.endswith('.' + ro.STOP) or cont.endswith('.' + ro.START):
+                    return 'marker-list:' + cont      # looks at a point's own START / STOP list, not at what is active
+                if const_val(t.left) is False:
+                    k = 'all' if isinstance(t.ops[0], ast.NotIn) else 'notall' if isinstance(t.ops[0], ast.In) else None
+                else:
+                    k = 'any' if isinstance(t.ops[0], ast.In) else 'none' if isinstance(t.ops[0], ast.NotIn) else None
                 if k is None:
                     return None
-                return ({'all': 'notall', 'notall': 'all'}[k]) if neg else k
+                return ({'all': 'notall', 'notall': 'all', 'any': 'none', 'none': 'any'}[k]) if neg else k
         return None
 
     def conjuncts(t):
